@@ -65,20 +65,19 @@ theorem gen_report_failure_binary :
        "    break",
        "bs.bundleData[bp.Id] = metadata"] := by decide
 
-/-- `SenderForBundle` still copies the metadata out under `RLock` and writes it back under `Lock`:
-the model treats one `SenderForBundle` call as atomic, i.e. assumes that two `forward` runs for the
-same bundle do not overlap (checks/C18.json, assumptions). -/
+/-- `SenderForBundle` of both algorithms has the same bracket: its read-modify-write of the bundle's
+metadata is one atomic `Action.pick` of the model. -/
 theorem gen_sender_for_bundle_locks :
-    Dtn7.Gen.C18.senderForBundleOpsSprayAndWait = (rfProgram false).map Op.name ∧
-    Dtn7.Gen.C18.senderForBundleOpsBinarySpray = (rfProgram false).map Op.name := by decide
+    Dtn7.Gen.C18.senderForBundleOpsSprayAndWait = (rfProgram true).map Op.name ∧
+    Dtn7.Gen.C18.senderForBundleOpsBinarySpray = (rfProgram true).map Op.name := by decide
 
 /-- `SprayAndWait.SenderForBundle`: nothing below two copies (before and inside the loop), peers in
 `sent` are skipped, a selected peer is appended to `sent` and costs one copy. -/
 theorem gen_sender_for_bundle_spray :
     Dtn7.Gen.C18.senderForBundleSkeletonSprayAndWait =
-      ["sw.dataMutex.RLock()",
+      ["sw.dataMutex.Lock()",
+       "defer sw.dataMutex.Unlock()",
        "metadata, ok := sw.bundleData[bp.Id]",
-       "sw.dataMutex.RUnlock()",
        "if !ok",
        "  return",
        "if metadata.remainingCopies < 2",
@@ -95,9 +94,7 @@ theorem gen_sender_for_bundle_spray :
        "    css = append(css, cs)",
        "    metadata.sent = append(metadata.sent, cs.GetPeerEndpointID())",
        "    metadata.remainingCopies = metadata.remainingCopies - 1",
-       "sw.dataMutex.Lock()",
        "sw.bundleData[bp.Id] = metadata",
-       "sw.dataMutex.Unlock()",
        "del = false",
        "return"] := by decide
 
@@ -106,9 +103,9 @@ to `sent` and gets `remainingCopies / 2` copies, which are subtracted and writte
 BinarySprayBlock (existing or new); one peer per call. -/
 theorem gen_sender_for_bundle_binary :
     Dtn7.Gen.C18.senderForBundleSkeletonBinarySpray =
-      ["bs.dataMutex.RLock()",
+      ["bs.dataMutex.Lock()",
+       "defer bs.dataMutex.Unlock()",
        "metadata, ok := bs.bundleData[bp.Id]",
-       "bs.dataMutex.RUnlock()",
        "if !ok",
        "  return",
        "if metadata.remainingCopies < 2",
@@ -131,9 +128,7 @@ theorem gen_sender_for_bundle_binary :
        "      metadataBlock := bpv7.NewBinarySprayBlock(sendCopies)",
        "      bp.MustBundle().AddExtensionBlock(bpv7.NewCanonicalBlock(0, 0, metadataBlock))",
        "    break",
-       "bs.dataMutex.Lock()",
        "bs.bundleData[bp.Id] = metadata",
-       "bs.dataMutex.Unlock()",
        "del = false",
        "return"] := by decide
 
@@ -182,6 +177,32 @@ theorem failure_reports_linearizable (a : Algo) (md : Option Meta) (reports : Li
       (allDone (rfProgram true) (reportFailures {} a md reports σ).2 = true → md.isSome →
         order.Perm reports) :=
   reportFailures_linearizable a md reports σ
+
+/-- **Overlapping `forward` runs** (the cron job's retry and the one triggered by a new peer work on
+the same bundle): any number of concurrent `SenderForBundle` and `ReportFailure` calls, any schedule
+`σ` — the metadata afterwards is that of a *sequential* execution of some of the calls (all of them
+once every goroutine has returned), and each call was computed from the state its predecessor in
+that execution left behind (`Chained`), so the senders it selected are the ones it selects there. -/
+theorem metadata_updates_linearizable (a : Algo) (md : Option Meta) (acts : List Action) (σ : List Nat) :
+    ∃ order : List (Action × Meta),
+      (concurrentUpdates {} a md acts σ).1.md = applyAll {} a md (order.map (·.1)) ∧
+      Chained {} a md order ∧
+      (∀ k ∈ order.map (·.1), k ∈ acts) ∧
+      (allDone (rfProgram true) (concurrentUpdates {} a md acts σ).2 = true → md.isSome →
+        (order.map (·.1)).Perm acts) :=
+  updates_linearizable a md acts σ
+
+/-- … hence spray-and-wait's conservation law survives every interleaving of them: copies kept +
+peers recorded in `sent` is unchanged, the last copy is never handed out. -/
+theorem spray_conservation_overlapping_runs (acts : List Action)
+    (h : ∀ k ∈ acts, match k with | .giveBack _ g => g = 1 | .pick _ => True) (m : Meta)
+    (σ : List Nat) :
+    ∃ m', (concurrentUpdates {} .spray (some m) acts σ).1.md = some m' ∧
+      m'.remaining + m'.sent.length = m.remaining + m.sent.length ∧
+      (1 ≤ m.remaining → 1 ≤ m'.remaining) :=
+  spray_concurrent_conserves acts (fun k hk => by
+    have := h k hk
+    cases k <;> simpa [SprayAction] using this) m σ
 
 /-! ### Spray-and-wait, bundle originated here -/
 
@@ -366,6 +387,23 @@ has written back; nothing is lost. -/
 theorem lost_update_repaired :
     (reportFailures {} .spray (some ⟨[1, 2], 1⟩) [(1, 1), (2, 1)]
       ([0, 0, 0, 1, 1, 1, 0, 0, 0, 1, 1, 1] ++ seqSched 4 2)).1.md = some ⟨[], 3⟩ := by decide
+
+/-- D26c — `SenderForBundle` had the same pattern: two overlapping `forward` runs (L = 2, peers 1 and
+2 listed in different orders) both read "2 copies, nobody served", both select a peer; the metadata
+ends as `⟨[2], 1⟩`, peer 1 has been served as well and is not even recorded. With the lock held
+across the call the second run sees one copy and selects nobody. -/
+theorem overlapping_picks_witness :
+    let r := concurrentUpdates { atomicRF := false } .spray (some ⟨[], 2⟩) [.pick [1, 2], .pick [2, 1]]
+      [0, 0, 0, 1, 1, 1, 0, 0, 0, 1, 1, 1]
+    allDone (rfProgram false) r.2 = true ∧ r.1.md = some ⟨[2], 1⟩ ∧
+    r.1.order = [(.pick [1, 2], ⟨[], 2⟩), (.pick [2, 1], ⟨[], 2⟩)] ∧
+    ¬ Chained { atomicRF := false } .spray (some ⟨[], 2⟩) r.1.order := by decide
+
+theorem overlapping_picks_repaired :
+    let r := concurrentUpdates {} .spray (some ⟨[], 2⟩) [.pick [1, 2], .pick [2, 1]]
+      ([0, 0, 0, 1, 1, 1, 0, 0, 0, 1, 1, 1] ++ seqSched 4 2)
+    r.1.md = some ⟨[1], 1⟩ ∧
+    r.1.order = [(.pick [1, 2], ⟨[], 2⟩), (.pick [2, 1], ⟨[1], 1⟩)] := by decide
 
 /-- D26b — a failed *direct* delivery also added a copy: L = 2, the destination is in reach but two
 deliveries fail, it leaves, and three foreign peers end up with the bundle (budget L − 1 = 1). -/
